@@ -199,6 +199,10 @@ def gen_c04(env, tier):
                 for k in range(len(r)):
                     if rnd.random() < 0.3:
                         r[k] = False
+        if case.weights is not None and case.weights["kind"] == "array" and case.func in ("mean", "sum") and rnd.random() < 0.25:
+            # signed weights (adjustments, differences of two weightings): a cell whose valid weights cancel has no mean,
+            # whatever its weighted sum is
+            case.weights["w"] = [Fraction(rnd.choice([-1, 1, 1, Fraction(-1, 2), Fraction(1, 2), 2, -2])) for _ in case.weights["w"]]
         if not case.dims and case.func == "count" and (case.weights is None or case.weights["kind"] == "scalar"):
             case.N = 3
         commons = None
